@@ -145,7 +145,7 @@ Segs == {"whole", "bytes1", "lines"}
 
 \* raw deflate delivered one byte at a time: zlib accepts the first piece as a zlib header and fails on the second, and
 \* the decoder does not fall back any more (decompression.py:84-93; DESIGN section 6 finding 12): a per-URL ProtocolError
-SegExpect(r, g) == IF r[1] = "df_raw" /\ g = "bytes1" THEN <<r[1], "h_decompress", "ZlibError">> ELSE r
+SegExpect(r, g) == IF r[1] = "df_raw" /\ g = "bytes1" /\ ~Fixed("deflate_fallback") THEN <<r[1], "h_decompress", "ZlibError">> ELSE r
 
 WireOf(tab, ctx, segs) == {[mode |-> "wire", ctx |-> ctx, cls |-> SegExpect(r, g)[1], site |-> SegExpect(r, g)[2],
                             kind |-> SegExpect(r, g)[3], seg |-> g] : r \in tab, g \in segs}
